@@ -720,7 +720,9 @@ class ChoiceEncoder(AbstractItemEncoder):
             name = names[0]
 
             component = value[name]
-            asn1Spec = asn1Spec[name]
+            # look the alternative up in the schema: subscription would
+            # select it on the schema object itself
+            asn1Spec = asn1Spec.componentType[name].asn1Object
 
         return encodeFun(component, asn1Spec, **options), True, True
 
